@@ -2,7 +2,8 @@
    Theorems about Model/CvModel.v: the executable model of internal/cv.c (nsync_cv_wait_with_deadline_generic,
    nsync_cv_signal, nsync_cv_broadcast, wake_waiters, cv_enqueue / cv_dequeue / cv_ready_time as used by nsync_wait_n)
    with the repair of finding F3, one step per atomic site, values from Gen/Sites.v; tied to the real code by
-   lock-step replay of harness/scen/cv_mix.c traces (replay/cv_replay.ml).  Statements only; proofs in Proof/CvProof.v.
+   lock-step replay of harness/scen/cv_mix.c traces (replay/cv_replay.ml).  Statements only; proofs in
+   Proof/CvProof.v .. CvProof6.v.
 
    Every theorem is about [run (init progs clock0 exp) sched] for ARBITRARY thread programs [progs] (any number of
    threads; Wait with any deadline / cancellable / generic flag, Signal, Broadcast, WaitN, Lock, Unlock in any order),
@@ -12,12 +13,17 @@
    other threads.
 
    ghost vocabulary: [taker x] = the thread that unlinked record x from the cv queue since it was last enqueued;
-   [r_code] / [r_taker] / ... = what was logged when a wait returned; [live] = the nsync_wait_n call that owns the
-   record has not returned; [dead_touch] = number of accesses to records that are not live. *)
+   [lc w x] = the list record x is on (cv queue / to_wake_list of waker t / mutex queue / dequeued by an unlocker /
+   none); [r_code] / [r_taker] / ... = what was logged when a wait returned; [live] = the nsync_wait_n call that owns
+   the record has not returned; [dead_touch] = number of accesses to records that are not live; [owed w u] = posts the
+   abstract mutex's unlocker still owes thread u (it cleared the waiting flag of u's transferred waiter; in mu.c the V
+   follows that store immediately); [wlog w] = the completed signal / broadcast calls with the ghost history of each:
+   k_q (the queue when the call acquired the cv spinlock), k_rdrs (the native readers on it), k_taken (what the call
+   unlinked), k_xfer (handed to the mutex queue), k_woken (waiting cleared), k_posts (semaphores posted). *)
 From NsyncBase Require Import CSem.
 From NsyncGen Require Import Consts Sites.
 From NsyncModel Require Import CvModel.
-From NsyncProof Require Import CvProof.
+From NsyncProof Require Import CvProof CvProof2 CvProof3 CvProof4 CvProof5 CvProof6.
 From Coq Require Import List ZArith.
 Import ListNotations.
 Local Open Scope Z_scope.
@@ -44,14 +50,32 @@ Section C04.
     | _ => True
     end.
   Proof. exact (queued_until_taken_reachable progs clock0 exp sched). Qed.
-  (* ... and it does not take the early exit of nsync_cv_signal / broadcast: whenever nobody is inside a cv spinlock
-     section, CV_NON_EMPTY is set if the queue is not empty *)
+
+  (* ... and the waker does not take the early exit of nsync_cv_signal / broadcast.
+     What is true of CV_NON_EMPTY: the bit of the word never changes while somebody holds the cv spinlock (the holder
+     writes it back at its release store), a waiter of nsync_cv_wait* sets it with the very CAS that acquires the
+     spinlock for its enqueue, cv_enqueue (nsync_wait_n) sets it only at its release store.  So the ONLY window in which
+     the queue holds a record while the bit is clear is a cv_enqueue between its CAS and its release store whose record
+     is alone on the queue -- an enqueue that is not complete, whose caller has not released its mutex yet.
+     [enq_done w r]: r is not the record of a cv_enqueue that is still in that window. *)
+  Theorem C04_non_empty_strong : forall r, In r (cvq w) -> enq_done w r -> has (cvw w) CV_NON_EMPTY = true.
+  Proof. exact (non_empty_strong_reachable progs clock0 exp sched). Qed.
+  (* in particular a queued waiter of nsync_cv_wait / nsync_cv_wait_with_deadline[_generic] is ALWAYS announced by the
+     bit, whoever is inside a spinlock section *)
+  Theorem C04_non_empty_native : forall t, (t < length (thr w))%nat -> In t (cvq w) -> has (cvw w) CV_NON_EMPTY = true.
+  Proof. exact (non_empty_native_reachable progs clock0 exp sched). Qed.
+  (* so a signaller / broadcaster that loads the cv word while such a record is queued goes on to acquire the spinlock *)
+  Theorem C04_no_early_exit : forall s bc c r, (s < length (thr w))%nat -> pcof w s = KLoadW bc -> In r (cvq w) -> enq_done w r ->
+    pcof (fst (step_core w s c)) s = SpLoad true (if bc then KBc else KSig).
+  Proof. exact (no_early_exit_reachable progs clock0 exp sched). Qed.
+  (* (lemma, the spinlock-free case of the above: the queue is non-empty and nobody is inside a spinlock section) *)
   Theorem C04_non_empty : (forall t, pc_spin (pcof w t) = false) -> cvq w <> [] -> has (cvw w) CV_NON_EMPTY = true.
   Proof. exact (non_empty_reachable progs clock0 exp sched). Qed.
 
   (* ---- (c) a wake-up that was consumed is reported as a wake-up ---- *)
   (* native waits: a non-zero result (ETIMEDOUT / ECANCELED) only if the waiter unlinked its record itself; a wait
-     whose record was unlinked by a waker returns 0; every returning wait's record was unlinked by somebody *)
+     whose record was unlinked by a waker returns 0 (even if its nsync_sem_wait_with_cancel_ had already returned
+     ETIMEDOUT: C04_example_race); every returning wait's record was unlinked by somebody *)
   Theorem C04_outcome : forall t e, In e (rets (get w t)) -> r_wait e = true ->
     (r_code e <> 0 -> r_taker e = Some t) /\
     (forall s, r_taker e = Some s -> s <> t -> r_code e = 0) /\
@@ -63,7 +87,16 @@ Section C04.
     (r_code e = 1 /\ r_taker e = Some t) \/ (r_code e = 0 /\ exists s, s <> t /\ r_taker e = Some s).
   Proof. exact (outcome_waitn_reachable progs clock0 exp sched). Qed.
 
-  (* ---- the repaired F3: no step touches an nsync_wait_n record after its call has returned ---- *)
+  (* ---- the repaired F3: no step touches an nsync_wait_n record after its call has returned ----
+     [touch] marks every access of the model to a record: both halves of the repair are covered.  cv_dequeue: the
+     membership test under the spinlock and the wait for waiting == 0.  wake_waiters: p_nw->sem is read in the step
+     that stores waiting = 0 ([VStore], which touches the record and every other element of to_wake_list, whose links
+     it rewrites), the V ([VV k o]) carries the semaphore's owner in the pc and touches nothing.  A model that reads
+     the owner in [VV] instead violates this theorem on the schedule "the nsync_wait_n caller returns between the
+     store and the V" (scratch demonstration MutantDemo.v, not part of the tree).  The list operations under the cv
+     spinlock count an access to EVERY record on pcv->waiters (a superset of the neighbours whose links the dll
+     functions rewrite, of the elements cv_dequeue walks over, and of the elements whose flags / l_type
+     nsync_cv_signal / broadcast read). *)
   Theorem C04_no_dead_record : dead_touch w = 0.
   Proof. exact (no_dead_record_reachable progs clock0 exp sched). Qed.
   (* a dead record is on no list: not on the cv queue, not on a waker's private list, not on the mutex queue *)
@@ -71,20 +104,59 @@ Section C04.
     ~ In r (cvq w) /\ ~ In r (muq w) /\ ~ In r (mwake w) /\ forall t, ~ In r (priv (pcof w t)).
   Proof. exact (dead_is_nowhere_reachable progs clock0 exp sched). Qed.
 
-  (* ---- (b) what becomes of the records a waker has taken: in every step of the waker each record on its private
-     list stays there, or is woken (waiting = 0, the next step is the V), or is handed to the mutex queue with
-     cv_mu = NULL (native records only) ---- *)
+  (* ---- (b) what becomes of the records a waker has taken, step by step: in every step of the waker each record on
+     its private list stays there, or is woken (waiting = 0, the next step is the V on its owner's semaphore, read
+     before the store), or is handed to the mutex queue with cv_mu = NULL (native records only) ---- *)
   Theorem C04_private_fate : forall t c r, (t < length (thr w))%nat -> In r (priv (pcof w t)) ->
     let w' := fst (step_core w t c) in
     In r (priv (pcof w' t)) \/
-    (waiting (recs w' r) = 0 /\ lc w' r = PNone /\ exists k, pcof w' t = VV k r) \/
+    (waiting (recs w' r) = 0 /\ lc w' r = PNone /\ exists k, pcof w' t = VV k (owner (recs w r))) \/
     (In r (muq w') /\ cv_mu (recs w' r) = false /\ is_mucv (recs w' r) = true /\ lc w' r = PMuq).
   Proof.
     intros t c r Hlt. apply private_fate_step; [|exact Hlt]. apply (Inv_run progs clock0 exp sched).
   Qed.
+
+  (* ---- (b) run level: every completed nsync_cv_signal / nsync_cv_broadcast call that got past the early exit ----
+     (the ghost history is written by the steps that do the real thing: k_q / k_rdrs / k_taken at the CAS that
+     acquires the cv spinlock (C04_taken_ghost), k_xfer at the CAS that acquires the mutex spinlock in wake_waiters
+     (C04_xfer_ghost), k_woken at the store waiting = 0 (C04_store_ghost), k_posts at the V (C04_post_ghost); every
+     return is logged (C04_return_logged)) *)
+  Theorem C04_wake_complete : forall t k, In (t, k) (wlog w) ->
+    (* a broadcast took every record that was queued when it acquired the cv spinlock; a signal took the first and,
+       if the first was a native reader, every native reader that was queued *)
+    incl (k_taken k) (k_q k) /\
+    (k_bc k = true -> k_taken k = k_q k) /\
+    (k_bc k = false -> forall f q, k_q k = f :: q -> In f (k_taken k) /\ (In f (k_rdrs k) -> incl (k_rdrs k) (k_taken k))) /\
+    (* nothing is left on its to_wake_list; every record it took was handed to the mutex queue or had its waiting
+       flag cleared -- exactly one of the two, exactly once -- and the semaphores posted are those of the owners of
+       the records whose flag was cleared, in the same order *)
+    k_wake k = [] /\
+    NoDup (k_xfer k ++ k_woken k) /\
+    (forall r, In r (k_taken k) <-> In r (k_xfer k) \/ In r (k_woken k)) /\
+    k_posts k = map (fun r => owner (recs w r)) (k_woken k).
+  Proof. exact (wake_complete_reachable progs clock0 exp sched). Qed.
+
+  (* ---- (d) no wake-up is lost ----
+     A thread asleep in nsync_sem_wait_with_cancel_ whose record a waker s has unlinked from the cv queue:
+       the waker still has it on its to_wake_list (and a waker holding records always moves: C04_waker_moves), or
+       the abstract mutex has it: on the mutex queue (cv_mu cleared) / dequeued by an unlocker, or
+       its waiting flag is clear and a post exists: the thread's semaphore is positive, or s is at the V for it (and
+       then s moves: C04_VV_moves), or the abstract mutex's unlocker owes it the post.
+     (The thread's semaphore is shared with its mutex sleeps; only the thread itself consumes posts.) *)
+  Theorem C04_no_lost_wakeup : forall t l s, (t < length (thr w))%nat -> pcof w t = WSem l -> taker (recs w t) = Some s -> s <> t ->
+    (lc w t = PPriv s /\ In t (priv (pcof w s))) \/
+    (lc w t = PMuq /\ In t (muq w)) \/ (lc w t = PMwake /\ In t (mwake w)) \/
+    (lc w t = PNone /\ waiting (recs w t) = 0 /\ (0 < sem w t \/ (exists k, pcof w s = VV k t) \/ 0 < owed w t)).
+  Proof. exact (no_lost_wakeup_reachable progs clock0 exp sched). Qed.
+  (* the same for a thread asleep in the P of nsync_wait_n whose record is no longer on the cv queue (records of
+     nsync_wait_n calls are never handed to the mutex queue) *)
+  Theorem C04_no_lost_wakeup_waitn : forall t n, pcof w t = NSem n -> ~ In (n_r n) (cvq w) ->
+    (exists s, s <> t /\ lc w (n_r n) = PPriv s /\ In (n_r n) (priv (pcof w s))) \/
+    (lc w (n_r n) = PNone /\ waiting (recs w (n_r n)) = 0 /\ (0 < sem w t \/ exists s k, pcof w s = VV k t)).
+  Proof. exact (no_lost_wakeup_waitn_reachable progs clock0 exp sched). Qed.
 End C04.
 
-(* ---- (b) what a waker takes, at the CAS that acquires the cv spinlock (any world) ---- *)
+(* ---- (b) what a waker takes, at the CAS that acquires the cv spinlock (any world; one-step lemmas) ---- *)
 (* nsync_cv_broadcast: every queued record *)
 Theorem C04_broadcast_covers : forall w t old, (t < length (thr w))%nat -> pcof w t = SpCas KBc old -> cvw w = old ->
   let w' := fst (step_core w t CNormal) in
@@ -101,39 +173,101 @@ Theorem C04_signal_covers : forall w t old, (t < length (thr w))%nat -> pcof w t
         (forall r, In r (cvq w) -> is_rdr (recs w r) = true -> In r sel) /\ (length (nonreaders (recs w) sel) <= 1)%nat) /\
      (is_rdr (recs w f) = false -> sel = [f])).
 Proof. exact signal_covers_step. Qed.
-(* the V that follows the store waiting = 0 *)
-Theorem C04_V_posts : forall w t k p c, (t < length (thr w))%nat -> pcof w t = VV k p ->
-  sem (fst (step_core w t c)) (owner (recs w p)) = sem w (owner (recs w p)) + 1.
+(* the V that follows the store waiting = 0 posts the semaphore whose owner was read before that store *)
+Theorem C04_V_posts : forall w t k o c, (t < length (thr w))%nat -> pcof w t = VV k o ->
+  sem (fst (step_core w t c)) o = sem w o + 1.
 Proof. exact VV_posts. Qed.
+(* the ghost history of a call is written by the steps that do the real thing:
+   - at the CAS that acquires the cv spinlock: k_q is the queue, k_rdrs its native readers, k_taken what was unlinked *)
+Theorem C04_taken_ghost : forall w t (bc : bool) old, (t < length (thr w))%nat ->
+  pcof w t = SpCas (if bc then KBc else KSig) old -> cvw w = old ->
+  let w' := fst (step_core w t CNormal) in
+  exists kk, pcof w' t = after_todo kk /\ k_bc kk = bc /\ k_q kk = cvq w /\
+             k_rdrs kk = filter (fun p => is_rdr (recs w p)) (cvq w) /\
+             k_taken kk = k_wake kk /\ priv (pcof w' t) = k_taken kk /\ k_xfer kk = [] /\ k_woken kk = [] /\ k_posts kk = [].
+Proof. exact taken_ghost_step. Qed.
+(* - at the CAS that acquires the mutex spinlock in wake_waiters: k_xfer grows by exactly the records appended to the
+     mutex queue, each with cv_mu cleared; they leave to_wake_list *)
+Theorem C04_xfer_ghost : forall w t c k old, (t < length (thr w))%nat -> pcof w t = VCas1 k old -> muw w = old ->
+  let w' := fst (step_core w t c) in
+  exists k' moved, pcof w' t = VLoad3 k' /\ k_xfer k' = k_xfer k ++ moved /\ muq w' = muq w ++ moved /\
+                   (forall r, In r moved -> cv_mu (recs w' r) = false /\ lc w' r = PMuq) /\
+                   (forall r, In r (k_wake k) <-> In r moved \/ In r (k_wake k')).
+Proof. exact wake_ghost_xfer. Qed.
+(* - at the store waiting = 0: k_woken grows by that record; the next pc is the V on the semaphore of its owner *)
+Theorem C04_store_ghost : forall w t c k p rest, (t < length (thr w))%nat -> pcof w t = VStore k -> k_wake k = p :: rest ->
+  let w' := fst (step_core w t c) in
+  pcof w' t = VV (kl_wake_one k rest p) (owner (recs w p)) /\ waiting (recs w' p) = 0 /\
+  k_woken (kl_wake_one k rest p) = k_woken k ++ [p] /\ k_wake (kl_wake_one k rest p) = rest.
+Proof. exact wake_ghost_store. Qed.
+(* - at the V: k_posts grows by the thread whose semaphore is incremented *)
+Theorem C04_post_ghost : forall w t c k o, (t < length (thr w))%nat -> pcof w t = VV k o ->
+  let w' := fst (step_core w t c) in
+  pcof w' t = enter_wake_loop (kl_add_post k o) /\ sem w' o = sem w o + 1 /\ k_posts (kl_add_post k o) = k_posts k ++ [o].
+Proof. exact wake_ghost_post. Qed.
+(* every return of a signal / broadcast call that got past the early exit adds an entry to the log *)
+Theorem C04_return_logged : forall w t c, (t < length (thr w))%nat -> waker_pc (pcof w t) = true ->
+  pcof (fst (step_core w t c)) t = Idle -> exists k, wlog (fst (step_core w t c)) = (t, k) :: wlog w.
+Proof. exact wake_return_logged. Qed.
 
 (* ---- (d) progress ---- *)
-(* Full statement: no reachable world in which no thread can move has a sleeper whose wake-up was issued: if no
-   thread step changes the world and the ABSTRACT mutex owes no hand-off, every thread asleep in
+(* a waker that has taken records is never blocked, nor is a waker at the V *)
+Theorem C04_waker_moves : forall w t c, (t < length (thr w))%nat -> priv (pcof w t) <> [] -> fst (step w (Thr t) c) <> w.
+Proof. exact waker_moves. Qed.
+Theorem C04_VV_moves : forall w t k o c, (t < length (thr w))%nat -> pcof w t = VV k o -> fst (step w (Thr t) c) <> w.
+Proof. exact VV_moves. Qed.
+
+(* No reachable world in which no thread can move has a sleeper whose wake-up was issued: if no thread step changes the
+   world, the ABSTRACT mutex holds no transferred waiter and OWES NO POST, every thread asleep in
    nsync_sem_wait_with_cancel_ still has its record on the cv queue (nobody signalled it). *)
-Definition C04_no_stuck_full : Prop :=
+Theorem C04_no_stuck : forall progs clock0 exp sched, let w := run (init progs clock0 exp) sched in
+  (forall t c, fst (step w (Thr t) c) = w) -> muq w = [] -> mwake w = [] -> (forall u, owed w u = 0) ->
+  forall t l, (t < length (thr w))%nat -> pcof w t = WSem l -> In t (cvq w).
+Proof. exact no_stuck_reachable. Qed.
+(* ... and every thread asleep in the P of nsync_wait_n still has its record on the cv queue (no hypothesis about the
+   abstract mutex is needed: these records are never transferred) *)
+Theorem C04_no_stuck_waitn : forall progs clock0 exp sched, let w := run (init progs clock0 exp) sched in
+  (forall t c, fst (step w (Thr t) c) = w) ->
+  forall t n, (t < length (thr w))%nat -> pcof w t = NSem n -> In (n_r n) (cvq w).
+Proof. exact no_stuck_waitn_reachable. Qed.
+
+(* The same statement WITHOUT the hypothesis "no post is owed" is false of the model, and the counterexample says
+   exactly which behaviour of the environment it needs: the unlocker of the abstract mutex dequeues the transferred
+   waiter ([MuDeq]), clears its waiting flag ([MuWakeSt]) and then never performs the V -- which nsync_mu_unlock_slow_
+   cannot do (mu.c: ATM_STORE_REL (&w->nw.waiting, 0); nsync_mu_semaphore_v (&w->sem); are consecutive statements; the
+   lock-step replay checks on every trace that each [MuWakeSt] is followed by that thread's V on the same waiter).
+   The hypothesis [owed w u = 0] of C04_no_stuck is that property of the quiescent world: every owed post was made. *)
+Definition C04_no_stuck_uncoupled : Prop :=
   forall progs clock0 exp sched, let w := run (init progs clock0 exp) sched in
   (forall t c, fst (step w (Thr t) c) = w) -> muq w = [] -> mwake w = [] ->
   forall t l, (t < length (thr w))%nat -> pcof w t = WSem l -> In t (cvq w).
 
-(* Proved part: in such a world a thread asleep in nsync_sem_wait_with_cancel_ either still has its record on the cv
-   queue, or its record was taken by a waker that has finished with it (it is on no list) while the thread's
-   semaphore is empty.  In particular no waker is left holding records (a waker with a non-empty private list can
-   always move) -- no wake-up is "in flight" in a stuck world.  MISSING for the full statement: the accounting of
-   the posts of the per-thread semaphore (each store waiting = 0 by wake_waiters is followed by a V that only the
-   owner consumes; the semaphore is shared with the thread's mutex sleeps, which the abstract mutex of this model
-   does not account for), and the corresponding obligation of the abstract mutex for transferred waiters (here a
-   hypothesis: no record is in the hands of the mutex). *)
-Theorem C04_no_stuck_partial : forall progs clock0 exp sched, let w := run (init progs clock0 exp) sched in
-  (forall t c, fst (step w (Thr t) c) = w) -> (forall r, lc w r <> PMuq /\ lc w r <> PMwake) ->
-  forall t l, (t < length (thr w))%nat -> pcof w t = WSem l ->
-  In t (cvq w) \/ (lc w t = PNone /\ sem w t <= 0 /\ exists s, s <> t /\ taker (recs w t) = Some s).
-Proof. exact no_stuck_partial_reachable. Qed.
-(* a waker that has taken records is never blocked *)
-Theorem C04_waker_moves : forall w t c, (t < length (thr w))%nat -> priv (pcof w t) <> [] -> fst (step w (Thr t) c) <> w.
-Proof. exact waker_moves. Qed.
-
 (* ---- non-vacuity: concrete programs and schedules ---- *)
 Definition rr2 (n : nat) : list (actor * choice) := concat (repeat [(Thr 0%nat, CNormal); (Thr 1%nat, CNormal)] n).
+Definition T (t n : nat) : list (actor * choice) := repeat (Thr t, CNormal) n.
+
+Theorem C04_no_stuck_uncoupled_refuted :
+  let progs := [[OLock W; OWait None false false; OUnlock]; [OLock W; OSignal; OUnlock]] in
+  let w := run (init progs 0 None) (rr2 30 ++ [(MuDeq 0, CNormal); (MuWakeSt 0, CNormal)]) in
+  (forall t c, fst (step w (Thr t) c) = w) /\ muq w = [] /\ mwake w = [] /\
+  (exists l, pcof w 0%nat = WSem l) /\ ~ In 0%nat (cvq w) /\
+  waiting (recs w 0%nat) = 0 /\ sem w 0%nat = 0 /\ owed w 0%nat = 1.
+Proof.
+  cbv zeta. set (W := run _ _).
+  assert (Hlen : length (thr W) = 2%nat) by (vm_compute; reflexivity).
+  split.
+  - intros [|[|t]] c.
+    + destruct c; vm_compute; reflexivity.
+    + destruct c; vm_compute; reflexivity.
+    + apply (step_thr_oob W (S (S t)) c). rewrite Hlen. repeat apply le_n_S. apply PeanoNat.Nat.le_0_l.
+  - vm_compute. repeat split; eauto.
+Qed.
+Theorem C04_no_stuck_uncoupled_is_false : ~ C04_no_stuck_uncoupled.
+Proof.
+  intros H. destruct C04_no_stuck_uncoupled_refuted as (A & B & C & (l & D) & E & _).
+  apply E. refine (H _ 0 None _ A B C 0%nat l _ D). vm_compute. repeat constructor.
+Qed.
+
 (* a waiter and a signaller that signals inside the critical section: wake_waiters hands the waiter to the mutex
    queue, the (abstract) unlock dequeues and wakes it; the wait returns 0, its record was unlinked by thread 1 *)
 Example C04_example_signal :
@@ -141,10 +275,13 @@ Example C04_example_signal :
   let w := run (init progs 0 None) (rr2 30 ++ [(MuDeq 0, CNormal); (MuWakeSt 0, CNormal); (EnvV 0, CNormal)] ++ rr2 10) in
   (forall t, (t < 2)%nat -> t_pc (get w t) = Idle /\ t_ops (get w t) = []) /\
   (exists e, rets (get w 0%nat) = [e] /\ r_wait e = true /\ r_code e = 0 /\ r_taker e = Some 1%nat /\ r_held e = Some W) /\
-  cvq w = [] /\ dead_touch w = 0.
+  cvq w = [] /\ dead_touch w = 0 /\ owed w 0%nat = 0 /\
+  (exists k, wlog w = [(1%nat, k)] /\ k_q k = [0%nat] /\ k_taken k = [0%nat] /\ k_xfer k = [0%nat] /\ k_woken k = [] /\ k_posts k = []).
 Proof.
   cbv zeta. split; [intros [|[|t]] Ht; [vm_compute; auto | vm_compute; auto | exfalso; clear - Ht; do 2 apply PeanoNat.Nat.succ_lt_mono in Ht; inversion Ht]|].
-  split; [eexists; split; [vm_compute; reflexivity|]; vm_compute; auto|]. vm_compute. auto.
+  split; [eexists; split; [vm_compute; reflexivity|]; vm_compute; auto|].
+  split; [vm_compute; reflexivity|]. split; [vm_compute; reflexivity|]. split; [vm_compute; reflexivity|].
+  eexists; split; [vm_compute; reflexivity|]; vm_compute; auto 10.
 Qed.
 (* a timed wait alone: the deadline passes, the waiter unlinks itself and reports ETIMEDOUT *)
 Example C04_example_timeout :
@@ -157,6 +294,26 @@ Proof.
   cbv zeta. split; [vm_compute; reflexivity|]. split; [vm_compute; reflexivity|].
   eexists; split; [vm_compute; reflexivity|]; vm_compute; auto.
 Qed.
+(* THE RACE of timeout against signal: the waiter's nsync_sem_wait_with_cancel_ has already returned ETIMEDOUT
+   (sem_outcome = ETIMEDOUT at clock 10 >= deadline 5) when a signaller, not holding the mutex, takes its record and
+   wakes it; the waiter sees waiting == 0, does not declare a timeout and returns 0: the wake-up is reported *)
+Example C04_example_race :
+  let progs := [[OLock W; OWait (Some 5) false false; OUnlock]; [OSignal]] in
+  let before := T 0 12 ++ [(Tick 10, CNormal); (Thr 0%nat, CTimeout)] in
+  let w1 := run (init progs 0 None) before in
+  let w := run w1 (T 1 9 ++ T 0 6) in
+  (exists l, pcof w1 0%nat = WLoad6 l /\ w_so l = ETIMEDOUT /\ In 0%nat (cvq w1)) /\
+  t_pc (get w 0%nat) = Idle /\
+  (exists e, rets (get w 0%nat) = [e] /\ r_wait e = true /\ r_code e = 0 /\ r_taker e = Some 1%nat /\ r_held e = Some W /\
+             r_dl e = Some 5 /\ r_toclk e = Some 10) /\
+  (exists k, wlog w = [(1%nat, k)] /\ k_taken k = [0%nat] /\ k_woken k = [0%nat] /\ k_posts k = [0%nat]) /\
+  sem w 0%nat = 1.   (* the post is left in the semaphore: a later sleep of the thread finds a stale post *)
+Proof.
+  cbv zeta. split; [eexists; split; [vm_compute; reflexivity|]; vm_compute; auto|].
+  split; [vm_compute; reflexivity|].
+  split; [eexists; split; [vm_compute; reflexivity|]; vm_compute; auto 10|].
+  split; [eexists; split; [vm_compute; reflexivity|]; vm_compute; auto|]. vm_compute. reflexivity.
+Qed.
 (* an nsync_wait_n caller woken by a broadcast issued after the critical section *)
 Example C04_example_waitn :
   let progs := [[OLock W; OWaitN None; OUnlock]; [OLock W; OUnlock; OBroadcast]] in
@@ -166,10 +323,54 @@ Example C04_example_waitn :
 Proof.
   cbv zeta. split; [eexists; split; [vm_compute; reflexivity|]; vm_compute; auto|]. vm_compute. auto.
 Qed.
+(* a broadcast over three waiters -- two native readers and an nsync_wait_n caller (record 4): all three are taken,
+   all three have their flag cleared and their owners (threads 0, 1, 2) are posted; all three return woken *)
+Example C04_example_broadcast :
+  let progs := [[OLock R; OWait None false false; OUnlock]; [OLock R; OWait None false false; OUnlock]; [OWaitN None]; [OBroadcast]] in
+  let w1 := run (init progs 0 None) (T 0 12 ++ T 1 12 ++ T 2 6 ++ T 3 15) in
+  let w := run w1 (T 0 5 ++ T 1 5 ++ T 2 7) in
+  (exists k, wlog w1 = [(3%nat, k)] /\ k_bc k = true /\ k_q k = [0; 1; 4]%nat /\ k_rdrs k = [0; 1]%nat /\ k_taken k = [0; 1; 4]%nat /\
+             k_xfer k = [] /\ k_woken k = [0; 1; 4]%nat /\ k_posts k = [0; 1; 2]%nat) /\
+  cvq w1 = [] /\ sem w1 0%nat = 1 /\ sem w1 1%nat = 1 /\ sem w1 2%nat = 1 /\
+  (forall t, (t < 2)%nat -> exists e, rets (get w t) = [e] /\ r_wait e = true /\ r_code e = 0 /\ r_taker e = Some 3%nat /\ r_held e = Some R) /\
+  (exists e, rets (get w 2%nat) = [e] /\ r_wait e = false /\ r_code e = 0 /\ r_taker e = Some 3%nat) /\
+  dead_touch w = 0.
+Proof.
+  cbv zeta. split; [eexists; split; [vm_compute; reflexivity|]; vm_compute; auto 10|].
+  split; [vm_compute; reflexivity|]. split; [vm_compute; reflexivity|]. split; [vm_compute; reflexivity|]. split; [vm_compute; reflexivity|].
+  split; [intros [|[|t]] Ht; [eexists; split; [vm_compute; reflexivity|]; vm_compute; auto | eexists; split; [vm_compute; reflexivity|]; vm_compute; auto
+                            | exfalso; clear - Ht; do 2 apply PeanoNat.Nat.succ_lt_mono in Ht; inversion Ht]|].
+  split; [eexists; split; [vm_compute; reflexivity|]; vm_compute; auto|]. vm_compute. reflexivity.
+Qed.
+(* a signal whose first waiter is a native reader, with two readers and two nsync_wait_n callers (records 5, 6) queued:
+   it takes both readers and ONE other waiter (record 5); record 6 stays queued *)
+Example C04_example_signal_readers :
+  let progs := [[OLock R; OWait None false false; OUnlock]; [OLock R; OWait None false false; OUnlock]; [OWaitN None]; [OWaitN None]; [OSignal]] in
+  let w := run (init progs 0 None) (T 0 12 ++ T 1 12 ++ T 2 6 ++ T 3 6 ++ T 4 15) in
+  (exists k, wlog w = [(4%nat, k)] /\ k_bc k = false /\ k_q k = [0; 1; 5; 6]%nat /\ k_rdrs k = [0; 1]%nat /\ k_taken k = [0; 1; 5]%nat /\
+             k_woken k = [0; 1; 5]%nat /\ k_posts k = [0; 1; 2]%nat) /\
+  cvq w = [6%nat] /\ has (cvw w) CV_NON_EMPTY = true.
+Proof.
+  cbv zeta. split; [eexists; split; [vm_compute; reflexivity|]; vm_compute; auto 10|]. vm_compute. auto.
+Qed.
+(* the state C04_no_lost_wakeup talks about: the sleeper's flag is clear, its semaphore is still 0, the waker is at the V *)
+Example C04_example_between_store_and_V :
+  let progs := [[OLock W; OWait None false false; OUnlock]; [OSignal]] in
+  let w := run (init progs 0 None) (T 0 12 ++ T 1 8) in
+  (exists l, pcof w 0%nat = WSem l) /\ taker (recs w 0%nat) = Some 1%nat /\ lc w 0%nat = PNone /\ waiting (recs w 0%nat) = 0 /\
+  sem w 0%nat = 0 /\ owed w 0%nat = 0 /\ exists k, pcof w 1%nat = VV k 0%nat.
+Proof. cbv zeta. vm_compute. repeat split; eauto. Qed.
 
-Print Assumptions C04_atomic_wait. Print Assumptions C04_queued_until_taken. Print Assumptions C04_non_empty.
+Print Assumptions C04_atomic_wait. Print Assumptions C04_queued_until_taken.
+Print Assumptions C04_non_empty_strong. Print Assumptions C04_non_empty_native. Print Assumptions C04_no_early_exit. Print Assumptions C04_non_empty.
 Print Assumptions C04_outcome. Print Assumptions C04_outcome_waitn. Print Assumptions C04_no_dead_record.
-Print Assumptions C04_dead_record_is_nowhere. Print Assumptions C04_private_fate. Print Assumptions C04_broadcast_covers.
-Print Assumptions C04_signal_covers. Print Assumptions C04_V_posts.
-Print Assumptions C04_no_stuck_partial. Print Assumptions C04_waker_moves.
-Print Assumptions C04_example_signal. Print Assumptions C04_example_timeout. Print Assumptions C04_example_waitn.
+Print Assumptions C04_dead_record_is_nowhere. Print Assumptions C04_private_fate. Print Assumptions C04_wake_complete.
+Print Assumptions C04_no_lost_wakeup. Print Assumptions C04_no_lost_wakeup_waitn. Print Assumptions C04_no_stuck_waitn.
+Print Assumptions C04_broadcast_covers.
+Print Assumptions C04_signal_covers. Print Assumptions C04_V_posts. Print Assumptions C04_return_logged.
+Print Assumptions C04_taken_ghost. Print Assumptions C04_xfer_ghost. Print Assumptions C04_store_ghost. Print Assumptions C04_post_ghost.
+Print Assumptions C04_waker_moves. Print Assumptions C04_VV_moves. Print Assumptions C04_no_stuck.
+Print Assumptions C04_no_stuck_uncoupled_refuted. Print Assumptions C04_no_stuck_uncoupled_is_false.
+Print Assumptions C04_example_signal. Print Assumptions C04_example_timeout. Print Assumptions C04_example_race.
+Print Assumptions C04_example_waitn. Print Assumptions C04_example_broadcast. Print Assumptions C04_example_signal_readers.
+Print Assumptions C04_example_between_store_and_V.
